@@ -300,7 +300,30 @@ def r7(ctx):
               got=render(rt)[:200], key="missing-link")
 
 
+def r8(ctx):
+    # "the order it opens - or the tracked order it cancels - is from then on shown as in flight": the recorders
+    # themselves (shared with C01.R5)
+    from rules import C01
+    C01.r5(ctx)
+    IFR = common_send.IFR
+    for many, one in (("record_in_flight_cancels", "record_in_flight_cancel"), ("record_in_flight_opens", "record_in_flight_open")):
+        ds = [d for d in ctx.find(name=many, trait=IFR, allow_many=True)]
+        okall = False
+        got = []
+        for d in ds:
+            b = ctx.body(d)
+            for bi, t, tm in b.real_calls():
+                got.append(render(tm)[:120])
+                if tm[1].endswith("Iterator::for_each") and render(tm[2][0]) == "requests":
+                    cb, _ = mir.closure_body(ctx.facts, tm[2][1]) if tm[2][1][0] == "agg" else (None, None)
+                    if cb is not None:
+                        inner = [x for _, _, x in cb.real_calls() if x[1].endswith("::" + one)]
+                        okall = len(inner) == 1 and render(inner[0][2][1]) == "$1"
+        ctx.check("InFlightRequestRecorder::" + many, okall, "every sent request of the batch is recorded, one by one", got=got, key="each")
+
+
 RULES = [
+    ("R8", "in-flight recorders: a sent open is tracked OpenInFlight, a sent cancel marks the tracked order CancelInFlight", r8),
     ("R1", "send_request: Ok iff channel accepted; exactly one send of the request on its exchange's link; error classes", r1),
     ("R2", "send_requests: per-request partition into sent / (request, error)", r2),
     ("R3", "in flight = the `.sent` half of that very send, exactly once, matching kind, on every path", r3),
